@@ -1064,3 +1064,95 @@ def _int_into(I, a, ci, dt):
     if ci.method == 'try_into':
         return Ok(a[0])
     return a[0]
+
+
+@reg('Iterator::rposition')
+def _iter_rposition(I, a, ci, dt):
+    r = a[0]
+    it = I.load(r) if isinstance(r, Ref) else to_iter(I, r)
+    xs = collect_iter(I, it)
+    res = NONE
+    for i in range(len(xs) - 1, -1, -1):
+        if I.branch(call_closure(I, a[1], xs[i])):
+            res = Some(i)
+            break
+    if isinstance(r, Ref):
+        I.store(r, ListIter([]))
+    return res
+
+
+@reg('Iterator::rfind', 'DoubleEndedIterator::rfind')
+def _iter_rfind(I, a, ci, dt):
+    r = a[0]
+    it = I.load(r) if isinstance(r, Ref) else to_iter(I, r)
+    xs = collect_iter(I, it)
+    res = NONE
+    for i in range(len(xs) - 1, -1, -1):
+        if I.branch(call_closure(I, a[1], Ref(Cell(xs[i]), ()))):
+            res = Some(xs[i])
+            break
+    if isinstance(r, Ref):
+        I.store(r, ListIter(xs[:i] if res.v == 1 else []))
+    return res
+
+
+@reg('DoubleEndedIterator::nth_back')
+def _nth_back(I, a, ci, dt):
+    r = a[0]
+    it = I.load(r)
+    xs = collect_iter(I, it)
+    n = I.concretize(a[1])
+    if n >= len(xs):
+        I.store(r, ListIter([]))
+        return NONE
+    I.store(r, ListIter(xs[:len(xs) - n - 1]))
+    return Some(xs[len(xs) - n - 1])
+
+
+@reg('DoubleEndedIterator::rfold', 'Iterator::rfold')
+def _rfold(I, a, ci, dt):
+    acc = a[1]
+    for x in reversed(collect_iter(I, a[0])):
+        acc = call_closure(I, a[2], acc, x)
+    return acc
+
+
+@reg('Iterator::reduce')
+def _reduce(I, a, ci, dt):
+    xs = collect_iter(I, a[0])
+    if not xs:
+        return NONE
+    acc = xs[0]
+    for x in xs[1:]:
+        acc = call_closure(I, a[1], acc, x)
+    return Some(acc)
+
+
+@reg('Iterator::scan')
+def _scan(I, a, ci, dt):
+    st = Cell(a[1])
+    out = []
+    for x in collect_iter(I, a[0]):
+        r = call_closure(I, a[2], Ref(st, ()), x)
+        if r.v == 0:
+            break
+        out.append(r.f[0])
+    return ListIter(out)
+
+
+@reg('Iterator::last')
+def _iter_last2(I, a, ci, dt):
+    xs = collect_iter(I, a[0])
+    return Some(xs[-1]) if xs else NONE
+
+
+@reg('Iterator::lt', 'Iterator::le', 'Iterator::gt', 'Iterator::ge', 'Iterator::cmp', 'Iterator::ne')
+def _iter_cmp(I, a, ci, dt):
+    xs = VecVal(collect_iter(I, a[0]))
+    ys = VecVal(collect_iter(I, a[1]))
+    if ci.method == 'ne':
+        return sym_not(values_equal(I, xs, ys))
+    o = compare_values(I, xs, ys)
+    if ci.method == 'cmp':
+        return o
+    return {'lt': o.v == 0, 'le': o.v != 2, 'gt': o.v == 2, 'ge': o.v != 0}[ci.method]
